@@ -468,6 +468,57 @@ def judge_library(text, storage):
     return v
 
 
+def config_name_cases():
+    out = []
+    for nm in ("A", "BC", "D1", "Z9", "QQ"):
+        for storage in (32, 80):
+            for keys in (("scalar",), ("array",), ("scalar", "array")):
+                cfg = {}
+                if "scalar" in keys:
+                    cfg[nm + "$"] = 100
+                if "array" in keys:
+                    cfg[nm + "$()"] = 120
+                for dimmed in ((True, True), (True, False), (False, True), (False, False)):  # (scalar DIMmed, array DIMmed)
+                    lines = []
+                    d = ([f"{nm}$"] if dimmed[0] else []) + ([f"{nm}$(5)"] if dimmed[1] else [])
+                    if d:
+                        lines.append("10 DIM " + ",".join(d))
+                    lines.append(f'20 {nm}$="X":{nm}$(1)={nm}$+"Y":PRINT {nm}$;{nm}$(1)')
+                    out.append({"text": "\n".join(lines) + "\n", "nm": nm, "storage": storage, "cfg": cfg, "dimmed": dimmed})
+    return out
+
+
+def judge_config_name(c):
+    m = tool.mods()
+    cc = m["configs"].CompilerConfigs(string_configs=m["configs"].StringConfigs(strname_to_size=c["cfg"]))
+    r = tool.convert(c["text"], default_str_storage=c["storage"], compiler_configs=cc)
+    if not r.ok:
+        return []
+    try:
+        procs = S.parse(r.text)
+    except S.B09SyntaxError:
+        return []
+    decls, uses = declarations(procs)
+    seen = {}
+    v = []
+    for nm, dims, typ, order in decls:
+        if nm.lower() in seen:
+            v.append(("declared-twice", f"{nm} is declared more than once"))
+        seen[nm.lower()] = (dims, typ, order)
+    k = c["nm"][:2].lower()
+    want = {k + "$": c["cfg"].get(c["nm"] + "$") if c["dimmed"][0] else None, "arr_" + k + "$": c["cfg"].get(c["nm"] + "$()") if c["dimmed"][1] else None}
+    for ident, cfgsize in want.items():
+        size = cfgsize if cfgsize is not None else c["storage"]
+        d = seen.get(ident)
+        if size == 32 and cfgsize is None:
+            continue  # default size: no explicit declaration promised
+        if d is None:
+            v.append(("string-undeclared", f"string {ident} has no declaration (expected STRING[{size}])"))
+        elif d[1] is None or d[1][0] != "STRING" or (d[1][1] or 32) != size:
+            v.append(("string-size", f"string {ident} declared as {d[1]}, expected STRING[{size}] (configuration {c['cfg']}, default {c['storage']}, DIMmed scalar/array {c['dimmed']})"))
+    return v
+
+
 def judge_cli_sizes(scratch):
     """decb_to_b09 -s N: every string of the program is declared STRING[N] for N over the boundary values of the option"""
     import importlib
@@ -564,6 +615,13 @@ def run(run):
             n += 1
             for sym, detail in judge_library(text, storage):
                 run.violation(sym, {"library", "storage:%d" % storage}, {"library": True, "text": text, "storage": storage}, f"bundled procedures, storage={storage}: {detail}\nsource: {text!r}")
+    for c in config_name_cases():
+        run.states += 1
+        run.transitions += 1
+        run.evaluations += 1
+        n += 1
+        for sym, detail in judge_config_name(c):
+            run.violation(sym, {"config-name", "name-len:%d" % len(c["nm"]), "storage:%d" % c["storage"]}, dict(c, config_name=True), f"configured name {c['nm']}: {detail}\nsource: {c['text']!r}")
     ncli, vcli = judge_cli_sizes(run.scratch_dir())
     run.states += ncli
     run.transitions += ncli
@@ -584,6 +642,8 @@ def run(run):
 
 
 def replay(case):
+    if case.get("config_name"):
+        return {"violations": [list(x) for x in judge_config_name(case)]}
     if case.get("multi"):
         return {"violations": [list(x) for x in judge_multi(case)]}
     if case.get("library"):
